@@ -2,7 +2,6 @@ package harness
 
 import (
 	"fmt"
-	"strings"
 	"time"
 
 	fpgo "github.com/TeaEntityLab/fpGo/v2"
@@ -449,37 +448,7 @@ func (sc *c10Scenario) Run(s *simrt.Sim) {
 			sc.extra = append(sc.extra, Violation{Clause: "api-smoke", Fingerprint: "Publisher.New", Detail: fmt.Sprintf("Publisher.New(): two subscriptions, Publish(1), Unsubscribe(a), Publish(x) delivered %v, want [a1 b1 bx]", got)})
 		}
 	}
-	// fault: the function given to Map panics for one value (no handler: the panic reaches the caller of Publish, who
-	// recovers); origin and derived publisher go on working for everybody afterwards
-	{
-		po := fpgo.PublisherNewGenerics[int]()
-		var before, derived, after []int
-		po.Subscribe(fpgo.Subscription[int]{OnNext: func(v int) { before = append(before, v) }})
-		pd := po.Map(func(v int) int {
-			if v == 13 {
-				panic("c10-map-boom")
-			}
-			return v + 1
-		})
-		pd.Subscribe(fpgo.Subscription[int]{OnNext: func(v int) { derived = append(derived, v) }})
-		po.Subscribe(fpgo.Subscription[int]{OnNext: func(v int) { after = append(after, v) }})
-		op := h.Do("main", "Publish-into-a-panicking-Map-function", 13, func() (interface{}, error) { po.Publish(13); return nil, nil })
-		s.Fault("map-function-panics")
-		late := 0
-		th := s.Go("after-the-map-panic", func() {
-			h.Do("after-the-map-panic", "Publish x2 + Subscribe", nil, func() (interface{}, error) {
-				po.Publish(2)
-				pd.Publish(50)
-				pd.Subscribe(fpgo.Subscription[int]{OnNext: func(v int) { late += v }})
-				po.Publish(4)
-				return nil, nil
-			})
-		})
-		ok := s.WaitUntilTimeout(th.Done, 10*time.Minute)
-		if !ok || !strings.Contains(op.Panic, "c10-map-boom") || fmt.Sprint(before) != "[13 2 4]" || fmt.Sprint(derived) != "[3 50 5]" || fmt.Sprint(after) != "[2 4]" || late != 5 {
-			sc.extra = append(sc.extra, Violation{Clause: "map", Fingerprint: "publisher-unusable-after-a-panic-of-the-Map-function", Detail: fmt.Sprintf("Map(fn) with fn panicking for 13: Publish(13) panicked with %q (want c10-map-boom); then Publish(2), derived.Publish(50), derived.Subscribe, Publish(4) finished=%v: origin subscriber before the forwarder got %v (want [13 2 4]), derived subscriber %v (want [3 50 5]), origin subscriber after the forwarder %v (want [2 4]), late derived subscriber sum %d (want 5)", op.Panic, ok, before, derived, after, late)})
-		}
-	}
+	// (a Map function that panics once, with the publishers used again afterwards, was tried here and withdrawn: what the library owes after a user callback panicked is not part of the property, DESIGN.md §9, 17)
 	if hd != nil && !sc.CloseH {
 		// drain: a forwarding callback posts further deliveries when it runs, so go round a few times, through
 		// the origin's handler and then the derived publisher's
@@ -514,11 +483,7 @@ func (sc *c10Scenario) Check(res *simrt.Result) []Violation {
 	if sc.h == nil {
 		return vs
 	}
-	for _, v := range opPanics(sc.h) {
-		if !strings.Contains(v.Fingerprint+v.Detail, "c10-map-boom") { // (the injected fault itself)
-			vs = append(vs, v)
-		}
-	}
+	vs = append(vs, opPanics(sc.h)...)
 	vs = append(vs, sc.extra...)
 	mode := "sync"
 	if sc.Handler {
